@@ -1343,6 +1343,100 @@ func writeSites(b *strings.Builder, root string, files []string, parsed map[stri
 			}
 		}
 	}
+	// request-context keys: every context.WithValue(.., "key", value) under controller/, and every single-value type
+	// assertion on a value read with .Value("key") (directly, or through a variable assigned from it in the same function)
+	var writes, reads []string
+	for _, p := range files {
+		rel, _ := filepath.Rel(root, p)
+		if filepath.Dir(rel) != "controller" && !(filepath.Dir(rel) == "utils/unmarshal" && !strings.HasPrefix(filepath.Base(rel), "zz_verif")) {
+			continue
+		}
+		keyOf := func(e ast.Expr) string {
+			c, ok := e.(*ast.CallExpr)
+			if !ok || calleeName(c.Fun) != "Value" || len(c.Args) != 1 {
+				return ""
+			}
+			if lit, ok := c.Args[0].(*ast.BasicLit); ok && lit.Kind == token.STRING {
+				return unquote(lit.Value)
+			}
+			return ""
+		}
+		scan := func(body ast.Node) {
+			vars := map[string]string{}
+			two := map[*ast.TypeAssertExpr]bool{}
+			ast.Inspect(body, func(n ast.Node) bool {
+				if as, ok := n.(*ast.AssignStmt); ok && len(as.Rhs) == 1 {
+					if len(as.Lhs) == 1 {
+						if k := keyOf(as.Rhs[0]); k != "" {
+							vars[exprString(as.Lhs[0])] = k
+						}
+					}
+					if ta, ok := as.Rhs[0].(*ast.TypeAssertExpr); ok && len(as.Lhs) == 2 {
+						two[ta] = true
+					}
+				}
+				return true
+			})
+			ast.Inspect(body, func(n ast.Node) bool {
+				switch x := n.(type) {
+				case *ast.CallExpr:
+					if exprString(x.Fun) == "context.WithValue" && len(x.Args) == 3 {
+						if lit, ok := x.Args[1].(*ast.BasicLit); ok && lit.Kind == token.STRING {
+							writes = append(writes, "("+q(unquote(lit.Value))+", "+q(rel)+", "+coqStr(exprString(x.Args[2]))+")")
+						}
+					}
+				case *ast.TypeAssertExpr:
+					if x.Type == nil || two[x] {
+						return true
+					}
+					k := keyOf(x.X)
+					if k == "" {
+						k = vars[exprString(x.X)]
+					}
+					if k != "" {
+						reads = append(reads, "("+q(k)+", "+q(rel)+", "+coqStr(exprString(x.Type))+")")
+					}
+				}
+				return true
+			})
+		}
+		for _, d := range parsed[p].Decls {
+			switch x := d.(type) {
+			case *ast.FuncDecl:
+				if x.Body != nil {
+					scan(x.Body)
+				}
+			case *ast.GenDecl:
+				for _, sp := range x.Specs {
+					if vs, ok := sp.(*ast.ValueSpec); ok {
+						for _, v := range vs.Values {
+							ast.Inspect(v, func(n ast.Node) bool {
+								if fl, ok := n.(*ast.FuncLit); ok {
+									scan(fl.Body)
+									return false
+								}
+								return true
+							})
+						}
+					}
+				}
+			}
+		}
+	}
+	sort.Strings(writes)
+	sort.Strings(reads)
+	dedup := func(xs []string) []string {
+		var o []string
+		for i, x := range xs {
+			if i == 0 || xs[i-1] != x {
+				o = append(o, x)
+			}
+		}
+		return o
+	}
+	b.WriteString("\n(* request-context keys: (key, file, value stored) and (key, file, type asserted without the comma-ok form) *)\n")
+	b.WriteString("Definition gen_ctx_writes : list (string * string * string) := [\n  " + strings.Join(dedup(writes), ";\n  ") + "].\n")
+	b.WriteString("Definition gen_ctx_asserted_reads : list (string * string * string) := [\n  " + strings.Join(dedup(reads), ";\n  ") + "].\n")
 	// WithOverallContextMiddleware: switch r.Header.Get("Content-Encoding") { case "": .. case "gzip": .. default: return New400Error }
 	var ceCases []string
 	ceDefault400 := false
